@@ -42,3 +42,9 @@ def stagesLoop (g : SG) (nodes offl : List Nat) : Nat → PassSt → List (List 
 
 def offlineStages (g : SG) (nodes : List Nat) : List (List Nat) × PassSt :=
   stagesLoop g nodes (nodes.filter g.offline) (nodes.length + 2) ⟨[], [], []⟩ []
+
+/-- decidable form of "`l` lists its nodes parents-first, the nodes of `inc` being already available"
+    (the node list a `Model` holds is sorted this way; checked on every model of the correspondence) -/
+def topoLB (g : SG) : List Nat → List Nat → Bool
+  | _, [] => true
+  | inc, u :: us => (g.parents u).all (fun p => inc.contains p) && topoLB g (u :: inc) us
